@@ -302,14 +302,31 @@ def snapshot_ok(node):
     return sn if ok(sn) else None
 
 
-def run_impl(fn):
-    """('ok', value) or ('exc', class name)"""
+class ImplTimeout(BaseException):
+    pass
+
+
+def _alarm(signum, frame):
+    raise ImplTimeout()
+
+
+def run_impl(fn, limit=20):
+    """('ok', value) or ('exc', class name); a call that does not come back within `limit` seconds is reported as
+    ('exc', 'DidNotTerminate') instead of hanging the check"""
+    import signal
+    old = signal.signal(signal.SIGALRM, _alarm)
+    signal.alarm(limit)
     try:
         return ("ok", fn())
+    except ImplTimeout:
+        return ("exc", "DidNotTerminate")
     except RecursionError:
         raise
     except Exception as e:  # noqa: the class IS the observable
         return ("exc", type(e).__name__)
+    finally:
+        signal.alarm(0)
+        signal.signal(signal.SIGALRM, old)
 
 
 # ------------------------------------------------------------------ the converter, without import side effects
